@@ -11,6 +11,10 @@ Protocol (line oriented, stdin/stdout):
      STATES2 <values...>
      PRELOAD0 <idx> <value> ...      PRELOAD1 ...
      EXTVAL0 <idx> <value> ...       EXTVAL1 ...
+     STALE 0|1                       (optional; 1 = stale-order protocol of RunPlan::staleOrder: at the second point
+                                      compute_rates(point 2), compute_rates(point 1), then compute_variables(point 2))
+     RESOLVE <idx> ...               (optional; stale order: variables pre-loaded with a sentinel before that
+                                      compute_variables call; nla_solve replaces a sentinel by the PRELOAD1 value)
      POISON 0|1                      (optional; 1 = external entries are set to NaN before the first method and after
                                       the arrays have been reported following each method)
   Callback invocations are reported as  XC <point> <index> <stage> <voi> | <states> | <variables>
@@ -43,10 +47,22 @@ def run(reqfile, out):
     preload = [pairs(req.get("PRELOAD0", [])), pairs(req.get("PRELOAD1", []))]
     extval = [dict(pairs(req.get("EXTVAL0", []))), dict(pairs(req.get("EXTVAL1", [])))]
     poison = ext and req.get("POISON", ["0"])[0] == "1"
+    stale = ode and req.get("STALE", ["0"])[0] == "1"
+    resolve = [int(x) for x in req.get("RESOLVE", []) if x != ""] if stale else []
+    resolving = [False]
+
+    def sentinel(k):
+        return -float(k + 1) * 1.0e150
     stat = {"resid": 0.0, "calls": 0}
 
     def nla_solve(objective_function, u, n, data):
         f = [math.nan] * n
+        if resolving[0]:
+            sol = dict(preload[1])
+            for i in range(n):
+                for k in resolve:
+                    if u[i] == sentinel(k):
+                        u[i] = sol.get(k, math.nan)
         objective_function(u, f, data)
         stat["calls"] += 1
         for v in f:
@@ -100,6 +116,7 @@ def run(reqfile, out):
         else:
             ns["initialise_variables"](states, rates, variables)
         out.write("INIT_STATES " + fmt(states) + "\n")
+        states0 = list(states)
     else:
         if ext:
             ns["initialise_variables"](variables, external_variable)
@@ -128,6 +145,27 @@ def run(reqfile, out):
             out.write("RATES%d " % p + fmt(rates) + "\n")
             out.write("VARSR%d " % p + fmt(variables) + "\n")
             poison_externals(variables)
+            if stale and p == 1:
+                rates_saved = list(rates)
+                for i, v in enumerate(states0):
+                    states[i] = v
+                for i, v in preload[0]:
+                    variables[i] = v
+                point[0] = 0
+                stage[0] = 1
+                if ext:
+                    ns["compute_rates"](voi[0], states, rates, variables, external_variable)
+                else:
+                    ns["compute_rates"](voi[0], states, rates, variables)
+                poison_externals(variables)
+                point[0] = 1
+                for i, v in enumerate(rates_saved):
+                    rates[i] = v
+                for i, v in enumerate(states2):
+                    states[i] = v
+                for i, v in preload[1]:
+                    variables[i] = sentinel(i) if i in resolve else v
+                resolving[0] = True
             stage[0] = 2
             if ext:
                 ns["compute_variables"](voi[p], states, rates, variables, external_variable)
